@@ -259,10 +259,55 @@ def share(ds):
         for f in TRACKED_FIELDS:
             if f in v.__dict__:
                 object.__setattr__(v, f, _track(v.__dict__[f], f, SHARED, register))
+        share_stream(v.__dict__.get("_data"), register)
         for c in getattr(v, "_dict", {}).values():
             go(c)
     go(ds)
     return reg
+
+
+def _tlist(items, what, register):
+    out = TList(items)
+    out._c13_tag = SHARED
+    out._c13_what = what
+    register(out)
+    return out
+
+
+def _track_row(row, register, depth=0):
+    """a source record: every LIST in it (the record itself, the list of its inner records, an inner record) becomes
+    a tracking list tagged shared; tuples are rebuilt around their tracked parts (they cannot be written anyway)"""
+    if depth > 3:
+        return row
+    if type(row) is list:
+        return _tlist([_track_row(x, register, depth + 1) for x in row], "source-record" if depth != 1 else "source-inner-records", register)
+    if type(row) is tuple:
+        return tuple(_track_row(x, register, depth + 1) for x in row)
+    return row
+
+
+def share_stream(data, register):
+    """the records held by the source of a lazy data object (IterData.stream) belong to the served dataset: a store
+    into one of them (`row[col] = ...` on a list record, `.append/.sort/...`) is a store outside the request.
+    A list stream is converted in place; a record array with object columns gets its inner lists converted (stores
+    into the array's own fields are seen by the snapshot, numpy offers no hook)."""
+    import numpy as np
+
+    stream = getattr(data, "stream", None)
+    if getattr(data, "islice", None) is None or stream is None:
+        return
+    if type(stream) is list:
+        seen = {}
+        for i, row in enumerate(stream):
+            if id(row) not in seen:
+                seen[id(row)] = _track_row(row, register)
+            stream[i] = seen[id(row)]
+    elif isinstance(stream, np.ndarray) and stream.dtype.names:
+        for n in stream.dtype.names:
+            if stream.dtype[n].hasobject:
+                col = stream[n]
+                for i in range(len(col)):
+                    col[i] = _track_row(col[i], register, 1)
 
 
 def traced_call(app, url, label, call):
